@@ -1014,7 +1014,7 @@ func init() {
 					p.Ops = []string{"edit", "add", "remove", "coladd", "colremove", "reorder", "shuffle-add"}
 				}
 				if i%4 == 3 {
-					p.PK = []int{0} // key position plays no part on this path; keeps the case clear of the open key-not-first finding
+					p.PK = []int{0} // key position plays no part on this path
 					// one commit is the ancestor of the other and fast-forward is disabled: a merge commit carrying X
 					p.Identity, p.NoFF, p.Swap = "X-base", []string{"flag", "config"}[rng.Intn(2)], rng.Intn(2) == 0
 					p.Ops = []string{"edit", "add", "remove", "coladd", "reorder"}
